@@ -350,6 +350,9 @@ func TestC19(t *testing.T) {
 		feats.OtherwiseInElse = false
 		feats.MaxStmts = 8
 		feats.As = false
+		// up to 600 lines per run: a text metric appended to itself on every line
+		// would grow without bound
+		feats.NoTextReads = true
 		st.Check(t, func(rt *rapid.T) {
 			var c c19Case
 			defer st.Guard(func() any { return c })
